@@ -100,3 +100,13 @@ Proof.
   transitivity (sum n (fun t => P a t * M t j) - (if Nat.eqb a j then 1 else 0) + (if Nat.eqb a j then 1 else 0)); [ring|].
   rewrite Z. ring.
 Qed.
+
+(* Custom: a fit that is accepted holds exactly the requested number of modes, which the supplied matrix has *)
+Theorem custom_fit_spec U ncols k M avail : custom_fit U ncols k = Some (M, avail) ->
+  avail = k /\ (k <= ncols)%nat /\ M = cols k U.
+Proof.
+  unfold custom_fit. destruct (ncols <? k)%nat eqn:E; [discriminate|].
+  intro H. injection H as <- <-. apply Nat.ltb_ge in E. auto.
+Qed.
+Theorem custom_fit_reject U ncols k : (ncols < k)%nat -> custom_fit U ncols k = None.
+Proof. unfold custom_fit. intro H. apply Nat.ltb_lt in H. now rewrite H. Qed.
